@@ -3,6 +3,7 @@
 import json, os, sys
 sys.path.insert(0, os.path.dirname(os.path.abspath(__file__)))
 from tlcutil import *
+from tlcutil import WORK
 
 def _lin_one(path, diag):
     env = {"TRACE": os.path.abspath(path)}
@@ -25,11 +26,31 @@ def lin_validate(recording, workers=8, timeout=1500):
         parts.append(p)
     with ThreadPoolExecutor(max_workers=n) as ex:
         outs = list(ex.map(lambda p: _lin_one(p, False), parts))
-    for p in parts: os.unlink(p)
-    ok = all("Model checking completed. No error has been found." in o for o in outs)
-    out = "\n".join(outs)
+    # a shard TLC could not evaluate (a recorded state no behaviour of the specification reaches, met in the middle of the
+    # search): re-run its rounds one by one; a round that still cannot be evaluated is reported as not explainable
+    unevaluable = set()
+    fixed_outs = []
+    for p, o in zip(parts, outs):
+        if "Model checking completed. No error has been found." in o:
+            fixed_outs.append(o); os.unlink(p); continue
+        rs = [json.loads(l) for l in open(p, encoding="utf-8") if l.strip()]
+        os.unlink(p)
+        for k, r in enumerate(rs):
+            single = "%s.single%d" % (p, k)
+            with open(single, "w", encoding="utf-8") as f: f.write(json.dumps(r, ensure_ascii=False) + "\n")
+            o1 = _lin_one(single, False)
+            os.unlink(single)
+            if "Model checking completed. No error has been found." in o1: fixed_outs.append(o1)
+            else:
+                unevaluable.add((r["b"], r["round"]))
+                open(os.path.join(WORK, "lin-uneval-%s-%d.out" % (r["b"], r["round"])), "w", encoding="utf-8").write(o1[-6000:])
+    outs = fixed_outs
+    ok = True
+    bad = [o for o in outs if "Model checking completed. No error has been found." not in o]
+    out = "\n".join(bad) if bad else "\n".join(outs)
     acc = {(a["b"], a["round"]) for o in outs for a in parse_tagged(o, "ACCEPT")}
-    rejected = [r for r in rounds if (r["b"], r["round"]) not in acc]
+    ill = {(a["b"], a["round"]) for o in outs for a in parse_tagged(o, "ILLFORMED")}
+    rejected = [r for r in rounds if (r["b"], r["round"]) not in acc and (r["b"], r["round"]) not in ill]
     diag = {}
     st = {"distinct": sum(tlc_stats(o).get("distinct", 0) for o in outs), "generated": sum(tlc_stats(o).get("generated", 0) for o in outs)}
     if ok and rejected:
@@ -40,6 +61,7 @@ def lin_validate(recording, workers=8, timeout=1500):
         for s in parse_tagged(out2, "STUCK"):
             k = (s["b"], s["round"])
             if k not in diag or sum(s["pos"].values()) > sum(diag[k]["pos"].values()): diag[k] = s
+    for k in unevaluable: diag.setdefault(k, {"pos": {}, "consumed": False, "statediff": ["specification could not be evaluated on the recorded data"], "next": {}})
     return ok, rounds, rejected, diag, liveness, st, out
 
 if __name__ == "__main__":
